@@ -369,6 +369,15 @@ func reifyGetField(
 			return nil
 		}
 
+		// A regular expression held by value is a struct by kind only: it is
+		// unpacked from a string like a primitive and left alone without a setting.
+		if fieldType == tRegexp {
+			if err := tryRecursiveValidate(to, opts.opts, opts.validators); err != nil {
+				return raiseValidation(cfg.ctx, cfg.metadata, name, err)
+			}
+			return nil
+		}
+
 		// Primitive types return early when it doesn't implement the Initializer interface.
 		if fieldType.Kind() != reflect.Struct && !hasInitDefaults(fieldType) {
 			if err := tryRecursiveValidate(to, opts.opts, opts.validators); err != nil {
